@@ -113,7 +113,8 @@ def run(repo: Repo, rep: Report, tier: str) -> None:
     rep.check(all(alt_ok(a) for a in alts) and len(alts) >= 3, "C03-R2", "the enable handed to memory_write is the lowered condition, its projection onto the enable signal, or the constant 1 on it",
               "; ".join(a[:70] for a in alts), lsw.loc(mwc[0]))
     inplace = [n for n in walk_local(lsw.node) if isinstance(n, ast.Assign) and isinstance(n.targets[0], ast.Attribute) and n.targets[0].attr in ("signal_type", "output_type") and norm(n.value) == q]
-    okp = len(inplace) >= 2 and all(any("IRDecider" in t and pol for t, pol in cguards(lsw, n)) for n in inplace)
+    # exactly the decider class: a decider made for the condition is unnamed; an arithmetic node can be a named value that is read again under its own type
+    okp = len(inplace) >= 2 and all(any(pol and re.fullmatch(r"isinstance\(.+, IRDecider\)", t) for t, pol in cguards(lsw, n)) for n in inplace)
     rep.check(okp, "C03-R2", "a decider-valued enable is retyped in place (node output type and reference type) to the enable signal", "; ".join(clw.text(n.targets[0])[:60] for n in inplace), lsw.loc(inplace[0]) if inplace else lsw.loc())
     proj = [n for n in walk_local(lsw.node) if isinstance(n, ast.Assign) and isinstance(n.value, ast.Call) and call_name(n.value) == "arithmetic" and q in norm(n.value)]
     okj = bool(proj) and any(t.endswith(f".signal_type != {q}") and pol for t, pol in cguards_any(lsw, proj[0]))
@@ -294,3 +295,6 @@ def run(repo: Repo, rep: Report, tier: str) -> None:
     # ---------------- R13 --------------------------------------------------------------
     _borrow3b(repo, rep, "C15", "C15-R9", "C03-R13", "a write after a call goes to the caller's cell: the lowerer's memory maps are put back from a snapshot after a function body that "
               "declares a memory of the same name", select=lambda o: "memory_refs" in o.construct or "memory_types" in o.construct, floor=2)
+
+    # ---------------- R14 --------------------------------------------------------------
+    _borrow3b(repo, rep, "C10", "C10-R21", "C03-R14", "readers of two cells on one signal type stay two readers under optimisation: CSE tells reads apart by the cell they read", floor=1)
